@@ -200,6 +200,12 @@ struct StreamPool {
             else if (ty == "ull") at(o) << (unsigned long long)(u64(f[3]));
             else { fprintf(stderr, "h_mem: shl type %s\n", ty.c_str()); exit(2); }
         }
+        else if (op == "shl16") { Block<char16_t> d = units<char16_t>(f[2], 1); at(o) << d.data(); }
+        else if (op == "shl16s") { Block<char16_t> d = units<char16_t>(f[2]); at(o) << std::u16string(d.data(), d.size()); }
+        else if (op == "shl16v") { Block<char16_t> d = units<char16_t>(f[2]); at(o) << std::u16string_view(d.data(), d.size()); }
+        else if (op == "shl32") { Block<char32_t> d = units<char32_t>(f[2], 1); at(o) << d.data(); }
+        else if (op == "shl32s") { Block<char32_t> d = units<char32_t>(f[2]); at(o) << std::u32string(d.data(), d.size()); }
+        else if (op == "shlw") { Block<wchar_t> d = units<wchar_t>(f[2]); at(o) << std::wstring(d.data(), d.size()); }
         else if (op == "del") { kill(o); }
         else { fprintf(stderr, "h_mem: unknown stream op %s\n", op.c_str()); exit(2); }
     }
@@ -225,6 +231,8 @@ struct StreamPool {
                 apply(f);
             } catch (const std::bad_alloc &) {
                 r = "bad_alloc";
+            } catch (const ST::unicode_error &) {
+                r = "unicode_error";
             }
             g_window = false;
             g_fail_in = -1;
